@@ -27,6 +27,7 @@ theorem addsub_shreg_sound (sf : BitVec 32) (op : BitVec 32) (s : BitVec 32) (sh
     rm.v.ule 30#8 = true ∧
     w.extractLsb' 16 5 = BitVec.setWidth 5 rm.v ∧
     imm6.ult 64#32 = true ∧
+    (sf = 0#32 → imm6.ult 32#32 = true) ∧
     w.extractLsb' 10 6 = BitVec.setWidth 6 imm6 ∧
     (rn.v.ule 30#8 = true ∨ rn.v = 100#8) ∧
     w.extractLsb' 5 5 = (if rn.v.ule 30#8 = true then BitVec.setWidth 5 rn.v else 31#5) ∧
@@ -35,7 +36,7 @@ theorem addsub_shreg_sound (sf : BitVec 32) (op : BitVec 32) (s : BitVec 32) (sh
     w &&& 522190848#32 = 184549376#32 := by
   unfold cls.addsub_shreg at h
   cls_norm at h
-  cases shift <;> simp only [Shift.u32, bind_ok, pure_ok, ok_ok, ex_elim, ex_elim', ex_elim_r, throw, throwThe, MonadExceptOf.throw, reduceCtorEq, false_and, exists_false, and_false] at h ⊢ <;> bv_decide
+  cases shift <;> simp only [Shift.u32, bind_ok, pure_ok, ok_ok, ex_elim, ex_elim', ex_elim_r, throw, throwThe, MonadExceptOf.throw, reduceCtorEq, false_and, exists_false, and_false] at h ⊢ <;> bv_decide (timeout := 600)
 
 example : ∃ w, cls.addsub_shreg 0#32 0#32 0#32 Shift.ASR R17 0#32 R17 R17 = .ok w := ⟨_, rfl⟩
 
@@ -51,7 +52,7 @@ theorem cond_branch_imm_sound (cond : Cond) (imm19 : BitVec 32)  (w : BitVec 32)
     w &&& 4278190096#32 = 1409286144#32 := by
   unfold cls.cond_branch_imm at h
   cls_norm at h
-  cases cond <;> simp only [Cond.u32, bind_ok, pure_ok, ok_ok, ex_elim, ex_elim', ex_elim_r, throw, throwThe, MonadExceptOf.throw, reduceCtorEq, false_and, exists_false, and_false] at h ⊢ <;> bv_decide
+  cases cond <;> simp only [Cond.u32, bind_ok, pure_ok, ok_ok, ex_elim, ex_elim', ex_elim_r, throw, throwThe, MonadExceptOf.throw, reduceCtorEq, false_and, exists_false, and_false] at h ⊢ <;> bv_decide (timeout := 600)
 
 example : ∃ w, cls.cond_branch_imm Cond.GE 4294967295#32 = .ok w := ⟨_, rfl⟩
 
@@ -79,7 +80,7 @@ theorem dataproc3_sound (sf : BitVec 32) (op54 : BitVec 32) (op31 : BitVec 32) (
     w &&& 520093696#32 = 452984832#32 := by
   unfold cls.dataproc3 at h
   cls_norm at h
-  bv_decide
+  bv_decide (timeout := 600)
 
 example : ∃ w, cls.dataproc3 0#32 0#32 0#32 R17 0#32 R17 R17 R17 = .ok w := ⟨_, rfl⟩
 
@@ -100,7 +101,7 @@ theorem fp_dataproc2_sound (m : BitVec 32) (s : BitVec 32) (ty : BitVec 32) (rm 
     w &&& 4288678912#32 = 505415680#32 := by
   unfold cls.fp_dataproc2 at h
   cls_norm at h
-  bv_decide
+  bv_decide (timeout := 600)
 
 example : ∃ w, cls.fp_dataproc2 0#32 0#32 0#32 F31 0#32 F31 F31 = .ok w := ⟨_, rfl⟩
 
@@ -127,7 +128,7 @@ theorem ldst_pair_pre_sound (opc : BitVec 32) (v : BitVec 32) (l : BitVec 32) (i
     w &&& 998244352#32 = 696254464#32 := by
   unfold cls.ldst_pair_pre at h
   cls_norm at h
-  bv_decide
+  bv_decide (timeout := 600)
 
 example : ∃ w, cls.ldst_pair_pre 0#32 0#32 0#32 4294967295#32 R17 R17 R17 = .ok w := ⟨_, rfl⟩
 
@@ -151,7 +152,7 @@ theorem ldst_regimm_sound (size : BitVec 32) (v : BitVec 32) (opc : BitVec 32) (
     w &&& 989855744#32 = 956301312#32 := by
   unfold cls.ldst_regimm at h
   cls_norm at h
-  bv_decide
+  bv_decide (timeout := 600)
 
 example : ∃ w, cls.ldst_regimm 0#32 0#32 0#32 0#32 R17 0#32 = .ok w := ⟨_, rfl⟩
 
@@ -173,7 +174,7 @@ theorem simd_2regs_misc_sound (q : BitVec 32) (u : BitVec 32) (size : BitVec 32)
     w &&& 2671643648#32 = 236980224#32 := by
   unfold cls.simd_2regs_misc at h
   cls_norm at h
-  bv_decide
+  bv_decide (timeout := 600)
 
 example : ∃ w, cls.simd_2regs_misc 0#32 0#32 0#32 0#32 F31 F31 = .ok w := ⟨_, rfl⟩
 
@@ -190,7 +191,7 @@ theorem uncond_branch_imm_sound (op : BitVec 32) (imm26 : BitVec 32)  (w : BitVe
     w &&& 2080374784#32 = 335544320#32 := by
   unfold cls.uncond_branch_imm at h
   cls_norm at h
-  bv_decide
+  bv_decide (timeout := 600)
 
 example : ∃ w, cls.uncond_branch_imm 0#32 4294967295#32 = .ok w := ⟨_, rfl⟩
 
@@ -212,7 +213,7 @@ theorem uncond_branch_reg_sound (opc : BitVec 32) (op2 : BitVec 32) (op3 : BitVe
     w &&& 4261412864#32 = 3590324224#32 := by
   unfold cls.uncond_branch_reg at h
   cls_norm at h
-  bv_decide
+  bv_decide (timeout := 600)
 
 example : ∃ w, cls.uncond_branch_reg 0#32 0#32 0#32 R17 0#32 = .ok w := ⟨_, rfl⟩
 
